@@ -11,19 +11,28 @@
  *      -Wl,-rpath,/repo/_build
  * Run: /tmp/s1_open_alloc_fail
  *
- * Observed BEFORE the fix (HEAD f105161): for all 20 open functions k=2, 3,
- * 4, 5 (the allocations of nni_msgq_init for s_uwq / s_urq in
- * nni_sock_create; k=1 is the socket itself, k=6.. the socket id map) end in
- *   req0/rep0/pub0/sub0/pull0/push0/pair0/pair1/bus0/surveyor0/respondent0 and
- *   raw variants:  SIGSEGV (or SIGABRT from nni_panic / pthread mutex)
- * e.g.
- *   req0         k=2  CRASH signal 11
- * and the run ends with  "FAIL: N bad trials".
+ * Observed BEFORE the fix (HEAD f105161): k=1 is the socket block, k=2..5 are
+ * the allocations of nni_msgq_init for s_uwq / s_urq in nni_sock_create, k=6
+ * the socket id map (first socket only).  For the protocols with a built-in
+ * context k=2..5 crash:
+ *   req0             k=2 CRASH signal 11      (same for k=3,4,5)
+ *   rep0 / sub0 / surveyor0 / respondent0: the same four lines each
+ *   FAIL: 20 bad trials
+ * (backtrace: nni_sock_open -> nni_sock_create -> sock_destroy ->
+ * req0_sock_fini -> req0_ctx_fini -> nni_mtx_lock(0x368)).  The other
+ * protocols (pub, push, pull, pair*, bus, all raw ones) do not crash on Linux
+ * only because their sock_fini happens to survive a zero filled state.
  * Cause: nni_sock_create calls sock_destroy, which calls the protocol's
- * sock_fini on the zero filled protocol area, although sock_init never ran.
+ * sock_fini because s_data != NULL, although sock_init never ran.
  *
- * Observed AFTER the fix: every k gives NNG_ENOMEM and no leak:
- *   "PASS: all injected failures gave a clean NNG_ENOMEM"
+ * Observed AFTER the fix (/repo 83e03ae): every k gives NNG_ENOMEM, no leak:
+ *   sub0             k=6 failure tolerated, open succeeded
+ *   bus0             k=6 failure tolerated, open succeeded
+ *   bus0_raw         k=6 failure tolerated, open succeeded
+ *   surveyor0        k=6 failure tolerated, open succeeded
+ *   PASS: all injected failures gave a clean NNG_ENOMEM
+ * (the "tolerated" ones are nni_lmq_init, documented to fall back to a
+ * capacity of 2 when its buffer cannot be allocated).
  */
 #include "../seeded/s37-req-ctxsend-idalloc-fail-keeps-lock/fa.h"
 
@@ -60,7 +69,7 @@ static const struct {
 };
 
 // child exit codes
-#define X_OK 0      // allocation failed, open returned ENOMEM, no leak
+#define X_CLEAN 0      // allocation failed, open returned ENOMEM, no leak
 #define X_DONE 10   // k is beyond the number of allocations
 #define X_WRONGRV 11
 #define X_LEAK 12
@@ -96,7 +105,7 @@ trial(open_fn fn, long k)
 		    (long) fa_live_blocks, (long) fa_live_bytes);
 		return (X_LEAK);
 	}
-	return (rv == 0 ? X_IGNORED : X_OK);
+	return (rv == 0 ? X_IGNORED : X_CLEAN);
 }
 
 int
@@ -124,7 +133,7 @@ main(void)
 				printf("%-16s k=%ld failure tolerated, open "
 				       "succeeded\n",
 				    protos[p].name, k);
-			} else if (WEXITSTATUS(st) != X_OK) {
+			} else if (WEXITSTATUS(st) != X_CLEAN) {
 				printf("%-16s k=%ld FAIL (%d)\n",
 				    protos[p].name, k, WEXITSTATUS(st));
 				bad++;
